@@ -149,8 +149,9 @@ Record batch := mkB {
   b_ops : list op;
   b_raised : Z;
   b_deadline : Z;
-  b_started : bool;     (* MakeAttempt done, callback entered *)
-  b_ret_at : Z;         (* when the callback returns (meaningful once started) *)
+  b_bumped : nat;       (* number of operations whose MakeAttempt has been done *)
+  b_entered : bool;     (* callback entered *)
+  b_ret_at : Z;         (* when the callback returns (meaningful once entered) *)
   b_returned : bool;
   b_done : bool         (* cost taken off the demand figure, slot released *)
 }.
@@ -174,6 +175,7 @@ Record state := mkState {
   shut : bool;              (* V2 isShutdown / V1 channel closed *)
   target : Z;
   tokens : nat;             (* V2 len(inflight) *)
+  leaked : nat;             (* V2: batch goroutines blocked on <-inflight after an audit drained the channel *)
   batches : list batch;     (* raised and not yet (done and returned) *)
   cy_cur : option nat;      (* V2 cursor as an index into buffer *)
   cy_allow : Z;
@@ -186,32 +188,31 @@ Record state := mkState {
   capacity_now : Z;         (* what the limiter answers to Capacity() *)
   maxcap_now : Z;           (* what the limiter answers to MaxCapacity() *)
   (* ghost history, used by the theorems only *)
-  g_inserted : list op;     (* every instance ever put in the buffer, in order *)
-  g_raised : list (nat * list op);  (* every batch ever raised: watcher, operations, in order *)
-  g_started : list nat;     (* ids of batches whose callback was entered *)
-  g_shutdowns : nat;        (* shutdown events raised *)
-  g_leaked : nat            (* V2: batch goroutines blocked for ever on the slot release *)
+  g_inserted : list op;     (* every instance ever put in the buffer, newest first *)
+  g_raised : list (nat * list op);  (* every batch ever raised: watcher, operations; newest first *)
+  g_started : list nat;     (* ids of batches whose callback was entered, newest first *)
+  g_shutdowns : nat         (* shutdown events raised *)
 }.
 
 #[export] Instance eta_ticker : Settable _ := settable! mkT <t_next; t_pending>.
 #[export] Instance eta_batch : Settable _ :=
-  settable! mkB <b_id; b_w; b_ops; b_raised; b_deadline; b_started; b_ret_at; b_returned; b_done>.
+  settable! mkB <b_id; b_w; b_ops; b_raised; b_deadline; b_bumped; b_entered; b_ret_at; b_returned; b_done>.
 #[export] Instance eta_state : Settable _ :=
   settable! mkState <now; phase_; loop; stop_req; stoppers; pause_tok; flush_tok; tk_flush; tk_cap;
-                     tk_audit; tickers_on; counted; waiting; woken; buffer; shut; target; tokens;
+                     tk_audit; tickers_on; counted; waiting; woken; buffer; shut; target; tokens; leaked;
                      batches; cy_cur; cy_allow; cy_consumed; cy_open; last_flush; attempts;
                      next_call; next_bid; capacity_now; maxcap_now;
-                     g_inserted; g_raised; g_started; g_shutdowns; g_leaked>.
+                     g_inserted; g_raised; g_started; g_shutdowns>.
 
 Definition init (c : cfg) : state :=
   {| now := 0; phase_ := PUninit; loop := LNotStarted; stop_req := false; stoppers := 0;
      pause_tok := false; flush_tok := false;
      tk_flush := mkT 0 false; tk_cap := mkT 0 false; tk_audit := mkT 0 false; tickers_on := false;
      counted := []; waiting := []; woken := []; buffer := []; shut := false; target := 0;
-     tokens := 0; batches := []; cy_cur := None; cy_allow := 0; cy_consumed := 0; cy_open := [];
+     tokens := 0; leaked := 0; batches := []; cy_cur := None; cy_allow := 0; cy_consumed := 0; cy_open := [];
      last_flush := None; attempts := []; next_call := 0; next_bid := 0;
      capacity_now := 0; maxcap_now := 0;
-     g_inserted := []; g_raised := []; g_started := []; g_shutdowns := 0; g_leaked := 0 |}.
+     g_inserted := []; g_raised := []; g_started := []; g_shutdowns := 0 |}.
 
 (* ---------- small helpers ---------- *)
 
@@ -337,6 +338,7 @@ Inductive label :=
 | ICycleRaise (w : nat)
 | ICycleEnd
 | IBatchStart (b : nat)
+| ICbEnter (b : nat)
 | ICbReturn (b : nat)
 | IBatchDone (b : nat)
 (* time *)
@@ -380,7 +382,7 @@ Definition do_release (s : state) (id : nat) : option (state * list obs) :=
   end.
 
 Definition insert_op (s : state) (o : op) : state :=
-  s <| buffer := buffer s ++ [o] |> <| g_inserted := g_inserted s ++ [o] |>.
+  s <| buffer := buffer s ++ [o] |> <| g_inserted := o :: g_inserted s |>.
 
 (* the buffer insert of a caller that has been counted *)
 Definition do_enq_insert (c : cfg) (s : state) (id : nat) : option (state * list obs) :=
@@ -577,16 +579,20 @@ Definition do_cycle_begin (c : cfg) (s : state) : option (state * list obs) :=
 
 (* processBatch / flush(): a non-empty batch leaves the loop *)
 Definition raise (c : cfg) (s : state) (w : nat) (ops : list op) : state * list obs :=
-  let b := mkB (next_bid s) w ops (now s) (now s + timeout_of c w) false 0 false false in
+  let b := mkB (next_bid s) w ops (now s) (now s + timeout_of c w) 0 false 0 false false in
   (s <| next_bid := S (next_bid s) |> <| batches := batches s ++ [b] |>
-     <| last_flush := Some (now s) |> <| g_raised := g_raised s ++ [(w, ops)] |>,
+     <| last_flush := Some (now s) |> <| g_raised := (w, ops) :: g_raised s |>,
    [OEvBatch w (objs_of ops)]).
 
-(* tryReserveBatchSlot *)
+(* tryReserveBatchSlot: a non-blocking send on the inflight channel.  If a batch
+   goroutine is blocked receiving from it (its token was drained by an audit), the
+   send is handed to that goroutine directly and the channel stays empty *)
 Definition try_reserve (c : cfg) (s : state) : option state :=
   if (c_maxconc c =? 0)%nat then Some s
-  else if (tokens s <? c_maxconc c)%nat then Some (s <| tokens := S (tokens s) |>)
-  else None.
+  else match leaked s with
+       | S n => Some (s <| leaked := n |>)
+       | O => if (tokens s <? c_maxconc c)%nat then Some (s <| tokens := S (tokens s) |>) else None
+       end.
 
 Definition next_cursor (s : state) (i : nat) : option nat :=
   if (i <? length (buffer s))%nat then Some i else None.
@@ -644,7 +650,7 @@ Definition visit_v1 (c : cfg) (s : state) : option (state * list obs) :=
           match waiting s with
           | [] => (s <| buffer := rest |>, [])
           | x :: r => (s <| buffer := rest ++ [x] |> <| waiting := r |>
-                         <| g_inserted := g_inserted s ++ [x] |>, [OEnqRet (o_id x) ROk])
+                         <| g_inserted := x :: g_inserted s |>, [OEnqRet (o_id x) ROk])
           end in
         let '(s2, ev) := take_op c s1 o in
         Some (s2, ret ++ ev)
@@ -681,24 +687,41 @@ Definition do_cycle_end (c : cfg) (s : state) : option (state * list obs) :=
 
 (* ---------- batches in progress ---------- *)
 
+(* all MakeAttempt calls of the batch goroutine are done *)
+Definition b_started (b : batch) : bool := (length (b_ops b) <=? b_bumped b)%nat.
+
+(* the batch goroutine calls MakeAttempt on its next operation *)
 Definition do_batch_start (s : state) (id : nat) : option (state * list obs) :=
   match find_batch id (batches s) with
   | Some b =>
-      if b_started b then None
-      else
-        let a := bump_all (attempts s) (b_ops b) in
+      match nth_error (b_ops b) (b_bumped b) with
+      | Some o =>
+          let b' := b <| b_bumped := S (b_bumped b) |> in
+          Some (s <| attempts := bump_attempt (attempts s) (o_obj o) |>
+                  <| batches := update_batch b' (batches s) |>, [])
+      | None => None
+      end
+  | None => None
+  end.
+
+(* the callback goroutine enters ProcessBatch; the harness callback reads Attempt() of every operation *)
+Definition do_cb_enter (s : state) (id : nat) : option (state * list obs) :=
+  match find_batch id (batches s) with
+  | Some b =>
+      if b_started b && negb (b_entered b) then
         let d := match b_ops b with [] => 0 | o :: _ => o_dur o end in
-        let b' := b <| b_started := true |> <| b_ret_at := now s + d |> in
-        Some (s <| attempts := a |> <| batches := update_batch b' (batches s) |>
-                <| g_started := g_started s ++ [id] |>,
-              [OCbStart (b_w b) (objs_of (b_ops b)) (map (fun o => get_attempt a (o_obj o)) (b_ops b))])
+        let b' := b <| b_entered := true |> <| b_ret_at := now s + d |> in
+        Some (s <| batches := update_batch b' (batches s) |> <| g_started := id :: g_started s |>,
+              [OCbStart (b_w b) (objs_of (b_ops b))
+                        (map (fun o => get_attempt (attempts s) (o_obj o)) (b_ops b))])
+      else None
   | None => None
   end.
 
 Definition do_cb_return (s : state) (id : nat) : option (state * list obs) :=
   match find_batch id (batches s) with
   | Some b =>
-      if b_started b && negb (b_returned b) && (b_ret_at b =? now s) then
+      if b_entered b && negb (b_returned b) && (b_ret_at b =? now s) then
         let b' := b <| b_returned := true |> in
         Some (s <| batches := settle_batch b' (batches s) |>, [OCbRet (b_w b) (objs_of (b_ops b))])
       else None
@@ -717,7 +740,7 @@ Definition do_batch_done (c : cfg) (s : state) (id : nat) : option (state * list
         | V2 =>
             if (c_maxconc c =? 0)%nat then Some (s1, [])
             else match tokens s with
-                 | O => Some (s1 <| g_leaked := S (g_leaked s) |>, [])  (* blocks for ever on <-inflight *)
+                 | O => Some (s1 <| leaked := S (leaked s) |>, [])  (* blocks on <-inflight *)
                  | S n => Some (s1 <| tokens := n |>, [])
                  end
         end
@@ -731,10 +754,8 @@ Definition zmin_opt (a : option Z) (b : Z) : option Z :=
   match a with None => Some b | Some x => Some (Z.min x b) end.
 
 Definition batch_deadlines (acc : option Z) (b : batch) : option Z :=
-  if b_started b then
-    let acc1 := if b_returned b then acc else zmin_opt acc (b_ret_at b) in
-    if b_done b then acc1 else zmin_opt acc1 (b_deadline b)
-  else acc.
+  let acc1 := if b_entered b && negb (b_returned b) then zmin_opt acc (b_ret_at b) else acc in
+  if b_started b && negb (b_done b) then zmin_opt acc1 (b_deadline b) else acc1.
 
 (* the earliest instant at which something is due *)
 Definition next_due (s : state) : option Z :=
@@ -752,7 +773,7 @@ Definition candidates (c : cfg) (s : state) : list label :=
       ILoopShutdown; ILoopPause; ILoopResume; ILoopAuditCheck; ILoopAuditConfirm; ILoopCap;
       ILoopFlushTick; ICycleBegin; ICycleVisit; ICycleEnd]
   ++ map (fun p => ICycleRaise (fst p)) (cy_open s)
-  ++ flat_map (fun b => [IBatchStart (b_id b); ICbReturn (b_id b); IBatchDone (b_id b)]) (batches s).
+  ++ flat_map (fun b => [IBatchStart (b_id b); ICbEnter (b_id b); ICbReturn (b_id b); IBatchDone (b_id b)]) (batches s).
 
 Definition is_internal (l : label) : bool :=
   match l with
@@ -788,6 +809,7 @@ Definition step_notime (c : cfg) (s : state) (l : label) : option (state * list 
   | ICycleRaise w => do_cycle_raise c s w
   | ICycleEnd => do_cycle_end c s
   | IBatchStart b => do_batch_start s b
+  | ICbEnter b => do_cb_enter s b
   | ICbReturn b => do_cb_return s b
   | IBatchDone b => do_batch_done c s b
   | TAdvance _ => None
